@@ -65,6 +65,10 @@ func init() {
 type Coin uint64
 
 func ParseZCN(c float64) (Coin, error) {
+	// decimal.NewFromFloat panics on NaN and infinities
+	if math.IsNaN(c) || math.IsInf(c, 0) {
+		return 0, ErrFloat64NotFinite
+	}
 	d := decimal.NewFromFloat(c)
 	if d.Sign() == -1 {
 		return 0, ErrNegativeValue
